@@ -8,7 +8,9 @@ line: `cyclesLeft` / `awaitingReqs`, then ONE answer from the GPU port: `process
 `processMemCopyH2DReturn` / `processMemCopyD2HReturn` → `completeCommandIfDone`), `processNewCommand`
 (every queue that is not running starts its head command: `processMemCopyH2DCommand` /
 `processMemCopyD2HCommand` append the page pieces to the SHARED `awaitingReqs` and RESTART the shared
-`cyclesLeft`; flush requests go straight to `requestsToSend`).
+`cyclesLeft`; flush requests go straight to `requestsToSend`; a command without any request
+completes at once — before the repair it left its queue running for ever: `Mq.startOld`, `tickOld`,
+`MqEnv.stepOld`).
 -/
 namespace C11
 open Util
@@ -118,8 +120,28 @@ def mqFlushReqs (s : Mq) (qi seq : Nat) (c : MqCmd) : List MqReq :=
 def mqPieceReqs (base qi seq : Nat) (c : MqCmd) : List MqReq :=
   (List.range c.pieces).map fun p => { id := base + p, q := qi, seq := seq, kind := c.kind, idx := p }
 
-/-- `processMemCopyH2DCommand` / `processMemCopyD2HCommand` for the head command of queue `qi` -/
+/-- `processMemCopyH2DCommand` / `processMemCopyD2HCommand` for the head command of queue `qi`.
+    They end with `completeCommandIfDone`: a command for which no request was created (a copy of 0
+    bytes that needs no flush) completes at once — the queue is not left running, the command is
+    dequeued (the shared timer is restarted all the same). -/
 def Mq.start (s : Mq) (qi : Nat) (q : MqQueue) : Mq × MqQueue × Bool :=
+  match q.cmds with
+  | [] => (s, q, false)
+  | c :: rest =>
+    if q.running then (s, q, false) else
+    let fl := mqFlushReqs s qi q.done c
+    let ps := mqPieceReqs (s.nextId + fl.length) qi q.done c
+    let s' := { s with toSend := s.toSend ++ fl, awaiting := s.awaiting ++ ps,
+                       nextId := s.nextId + fl.length + ps.length,
+                       cyclesLeft := if c.kind = .h2d then (s.cycH2D : Int) else (s.cycD2H : Int),
+                       created := s.created ++ fl ++ ps }
+    if (fl ++ ps).isEmpty then
+      ({ s' with completed := s'.completed ++ [(qi, q.done)] },
+       { q with cmds := rest, running := false, reqs := [], done := q.done + 1 }, true)
+    else (s', { q with running := true, reqs := (fl ++ ps).map (·.id) }, true)
+
+/-- `Mq.start` before the repair: the queue is marked running also when no request was created -/
+def Mq.startOld (s : Mq) (qi : Nat) (q : MqQueue) : Mq × MqQueue × Bool :=
   match q.cmds with
   | [] => (s, q, false)
   | c :: _ =>
@@ -156,6 +178,29 @@ def Mq.tick (s : Mq) : Mq × Bool :=
   let d := c.1.startAll
   (d.1, a.2 || mw || d.2)
 
+/-! the driver before the repair -/
+
+def mqStartAllOld (s : Mq) : Nat → List MqQueue → Mq × List MqQueue × Bool
+  | _, [] => (s, [], false)
+  | qi, q :: rest =>
+    let r := s.startOld qi q
+    let t := mqStartAllOld r.1 (qi + 1) rest
+    (t.1, r.2.1 :: t.2.1, r.2.2 || t.2.2)
+
+def Mq.startAllOld (s : Mq) : Mq × Bool :=
+  let r := mqStartAllOld s 0 s.queues
+  ({ r.1 with queues := r.2.1 }, r.2.2)
+
+def Mq.tickOld (s : Mq) : Mq × Bool :=
+  if s.fault.isSome then (s, false) else
+  let a := s.sendToGPUs
+  let b := a.1.delay
+  let c := b.1.response
+  let mw := if b.1.portIn.isEmpty then b.2 else c.2
+  if c.1.fault.isSome then (c.1, true) else
+  let d := c.1.startAllOld
+  (d.1, a.2 || mw || d.2)
+
 /-! ## Environment: the application enqueues, the GPU side takes requests and answers in any order -/
 
 structure MqEnv where
@@ -177,6 +222,11 @@ deriving DecidableEq, Repr
 
 def mqReqStr (r : MqReq) : String := r.kind.tag ++ toString r.q ++ "." ++ toString r.idx
 
+/-- the completions of one tick as the harness observes them (queue lengths before / after the
+    tick): one `!q<i>` per completed command, by queue index -/
+def mqDoneStr (newDone : List (Nat × Nat)) : String :=
+  String.join (((newDone.map (·.1)).mergeSort (· ≤ ·)).map fun q => "!q" ++ toString q)
+
 def MqEnv.step (e : MqEnv) : MqOp → MqEnv × String
   | .enq qi c =>
     if qi < e.s.queues.length then
@@ -189,7 +239,7 @@ def MqEnv.step (e : MqEnv) : MqOp → MqEnv × String
     ({ e with s := r.1 },
       match r.1.fault with
       | some f => "fault:" ++ f
-      | none => (if r.2 then "t1" else "t0") ++ String.join (newDone.map fun c => "!q" ++ toString c.1))
+      | none => (if r.2 then "t1" else "t0") ++ mqDoneStr newDone)
   | .take k =>
     let t := e.s.portOut.take k
     ({ e with s := { e.s with portOut := e.s.portOut.drop k }, outstanding := e.outstanding ++ t, seen := e.seen ++ t },
@@ -207,6 +257,21 @@ def MqEnv.step (e : MqEnv) : MqOp → MqEnv × String
 def MqEnv.run (e : MqEnv) : List MqOp → MqEnv
   | [] => e
   | op :: rest => ((e.step op).1).run rest
+
+/-- the environment around the driver before the repair -/
+def MqEnv.stepOld (e : MqEnv) : MqOp → MqEnv × String
+  | .tick =>
+    let r := e.s.tickOld
+    let newDone := r.1.completed.drop e.s.completed.length
+    ({ e with s := r.1 },
+      match r.1.fault with
+      | some f => "fault:" ++ f
+      | none => (if r.2 then "t1" else "t0") ++ mqDoneStr newDone)
+  | op => e.step op
+
+def MqEnv.runOld (e : MqEnv) : List MqOp → MqEnv
+  | [] => e
+  | op :: rest => ((e.stepOld op).1).runOld rest
 
 /-- `warm`: the driver has already ticked (a fresh driver starts with `cyclesLeft = 0`, the first tick
     makes it `-1`) -/
